@@ -114,10 +114,13 @@ def resources():
         macs = json.load(f)["macros"]
     with open(os.path.join(REPO, "Resources/Hexagon/noped_insns.json")) as f:
         noped = json.load(f)["noped"]
+    subs = dict(subs)
+    subs.update(EXTRA_SUBS)
     return subs, macs, noped
 
 
 _compilers = {}
+EXTRA_SUBS = {}  # test sub-routines registered through the public Compiler.add_sub_routine (set before forking)
 
 
 def compiler(fmt="READ_STATEMENTS"):
@@ -129,6 +132,8 @@ def compiler(fmt="READ_STATEMENTS"):
         from rzilcompiler.Transformer.RZILTransformer import CodeFormat
         with contextlib.redirect_stdout(io.StringIO()):
             _compilers[fmt] = Compiler(ArchEnum.HEXAGON, code_format=CodeFormat[fmt])
+            for n, d in EXTRA_SUBS.items():
+                _compilers[fmt].add_sub_routine(n, d["return_type"], d["params"], d["code"])
     return _compilers[fmt]
 
 
@@ -151,7 +156,31 @@ def transform(name, trees, behaviors, fmt="READ_STATEMENTS", hyb=None):
         return ("exc", f"{type(e).__name__}: {str(e)[:200]}")
 
 
-def compile_stmt(code, fmt="READ_STATEMENTS", hyb=None):
+def parse_stmt(code, use_cache=True):
+    """Parse a snippet with the compiler's own Lark parser object (cached per grammar/text)."""
+    c = compiler()
+    if use_cache:
+        got = cache_get("stmt:" + code)
+        if got is not None:
+            if got[0] == "err":
+                raise ParseFailure(got[1])
+            return got[1]
+    try:
+        ast = c.parser.parse(code)
+    except Exception as e:
+        if use_cache:
+            cache_put("stmt:" + code, ("err", f"{type(e).__name__}: {str(e)[:200]}"))
+        raise
+    if use_cache:
+        cache_put("stmt:" + code, ("ok", ast))
+    return ast
+
+
+class ParseFailure(Exception):
+    pass
+
+
+def compile_stmt(code, fmt="READ_STATEMENTS", hyb=None, use_cache=True):
     """compile_c_stmt on the real compiler; always leaves the transformer reset (the harness, not the
     property under test, owns that here).  -> ('ok', text, meta) | ('exc', repr)"""
     c = compiler(fmt)
@@ -159,7 +188,7 @@ def compile_stmt(code, fmt="READ_STATEMENTS", hyb=None):
     if hyb is not None:
         c.transformer.il_ops_holder.hybrid_op_count = hyb
     try:
-        ast = c.parser.parse(code)
+        ast = parse_stmt(code, use_cache)
         text = c.transformer.transform(ast)
         meta = c.transformer.ext.get_meta()
         return ("ok", text, meta)
